@@ -2,6 +2,7 @@ package oracle
 
 import (
 	"math/big"
+	"strings"
 )
 
 // SizeUnits maps every documented unit to its multiplier (nil = too large for 64 bits: only zero allowed).
@@ -52,11 +53,27 @@ func SizeProduct(value *big.Int, unit string) (res uint64, known bool, ok bool) 
 	return p.Uint64(), true, true
 }
 
+// unitMultiplier: multiplier of a documented unit ("" = B); the too-large units answer 2^70 / 2^80-like values so that only
+// a zero number gives a product below 2^64.
+func unitMultiplier(unit string) (*big.Int, bool) {
+	if unit == "" {
+		unit = "B"
+	}
+	m, known := SizeUnits[unit]
+	if !known {
+		return nil, false
+	}
+	if m == nil {
+		return new(big.Int).Lsh(big.NewInt(1), 70), true
+	}
+	return m, true
+}
+
 // Text expectation classes.
 const (
 	SAccept   = iota // must be accepted with Value
 	SReject          // must be rejected
-	SDontCare        // may be rejected; if accepted the value must be Value (ValueOK) 
+	SDontCare        // may be rejected; if accepted the value must be Value (ValueOK)
 )
 
 type SizeExpect struct {
@@ -74,6 +91,21 @@ const nbsp = "\u00a0"
 // Separators before the first digit or after the last digit when no unit
 // follows are don't-care zones (the statement does not mention them).
 func SizeText(s string) SizeExpect {
+	// White space other than the ASCII space around the whole (tab, new line, no-break space after the unit, ...): the
+	// statement only speaks of spaces; a parser that trims more must produce the value of the trimmed text, one that
+	// does not must reject - both are fine.
+	if t := strings.TrimSpace(s); t != strings.Trim(s, " ") {
+		in := SizeText(t)
+		if in.Class == SAccept {
+			in.Class, in.ValueOK = SDontCare, true
+			in.Why = "white space other than ' ' around the whole (statement silent)"
+		}
+		return in
+	}
+	return sizeText(s)
+}
+
+func sizeText(s string) SizeExpect {
 	// strip ASCII spaces around the whole
 	i, j := 0, len(s)
 	for i < j && s[i] == ' ' {
@@ -126,6 +158,39 @@ func SizeText(s string) SizeExpect {
 			continue
 		}
 		break
+	}
+	// A decimal fraction directly after the digits: the statement demands an error when number x multiplier is not an
+	// integer ("fractional ... never produce a truncated value") and the exact product when it is one; the pinned parser
+	// rejects every fraction. So: integral product => accept with exactly that value or reject; otherwise reject.
+	if len(digits) > 0 && k+1 < len(t) && t[k] == '.' && t[k+1] >= '0' && t[k+1] <= '9' {
+		// fraction digits, separators between them and before the unit ignored like everywhere else
+		var frac []byte
+		rest := t[k+1:]
+		for {
+			switch {
+			case rest != "" && rest[0] >= '0' && rest[0] <= '9':
+				frac = append(frac, rest[0])
+				rest = rest[1:]
+				continue
+			case strings.HasPrefix(rest, " "), strings.HasPrefix(rest, "_"):
+				rest = rest[1:]
+				continue
+			case strings.HasPrefix(rest, nbsp):
+				rest = rest[2:]
+				continue
+			}
+			break
+		}
+		num, _ := new(big.Int).SetString(string(digits)+string(frac), 10)
+		den := new(big.Int).Exp(big.NewInt(10), big.NewInt(int64(len(frac))), nil)
+		if mult, known := unitMultiplier(rest); known {
+			prod := new(big.Int).Mul(num, mult)
+			q, r := new(big.Int).QuoRem(prod, den, new(big.Int))
+			if r.Sign() == 0 && q.Cmp(two64) < 0 && (mult.Cmp(two64) < 0 || q.Sign() == 0) {
+				return SizeExpect{Class: SDontCare, HasUnit: rest != "", Value: q.Uint64(), ValueOK: true, Why: "decimal fraction whose product is a whole number of bytes (accept with exactly that value, or reject)"}
+			}
+		}
+		return SizeExpect{Class: SReject, Why: "fractional number whose product is not a whole number of bytes below 2^64 / unknown unit"}
 	}
 	unit := t[k:]
 	if len(digits) == 0 {
